@@ -1,8 +1,8 @@
-// ---------- top-level lemma L1 (hand-written glue around the `Parser { .. }` literal cut out of parse_module) ----------
-// For every token vector whose kinds are token kinds, running the real `module` on the parser that
-// parse_module constructs ends with: every token consumed, exactly one Advance per token, a single
-// well-nested tree (first event Open, last event Close, depth 0), token vectors and source untouched.
-// This is the precondition of the tree builder (Kani unit, DESIGN.md 3.1 B).
+// ---------- top-level lemmas (hand-written glue around the `Parser { .. }` literal cut out of parse_module) ----------
+// L1: for every token vector whose kinds are token kinds, running the real `module` on the parser that parse_module
+// constructs ends with: every token consumed, exactly one Advance per token, a single rooted well-nested tree
+// (first event Open(SOURCE_FILE), last event Close, depth 0, never outside the root in between), token vectors and
+// source untouched.
 fn verif_top<'i>(tokens: Vec<LexToken<'i>>, tokens_raw: Vec<LexToken<'i>>, src: &'i str) -> (p: Parser<'i>)
     requires forall|i: int| 0 <= i < tokens@.len() ==> is_tok(#[trigger] tokens@[i].kind),
     ensures p.tokens@ == tokens@, p.tokens_raw@ == tokens_raw@, p.src@ == src@,
